@@ -186,6 +186,13 @@ def run(ctx):
                  ".regal/config.yaml": CFG}
         ev = {"kind": "delete", "file": "p1/f1.rego"} if kind == "delete" else {"kind": "rename", "file": "p1/f1.rego", "to": "p1/g1.rego"}
         cases.append({"id": len(cases), "op": "lsp.history", "files": files, "events": [ev]})
+    # directed: a package that another file imports is renamed out of the linted set (into the ignored directory / to a
+    # non-.rego name): for the workspace that is a deletion
+    for to in ("ignored/f1.rego", "p1/f1.rego.bak"):
+        files = {"p0/f0.rego": content(0, [1], 0), "p1/f1.rego": content(1, [], 0), "p2/f2.rego": content(2, [0, 1], 0),
+                 ".regal/config.yaml": CFG}
+        cases.append({"id": len(cases), "op": "lsp.history", "files": files,
+                      "events": [{"kind": "rename", "file": "p1/f1.rego", "to": to, "pauseMs": 300}]})
     cases += directed_aggregate_histories(len(cases))
     # directed bursts: a change immediately followed by the deletion of the same file (the lint job of the change is
     # still in flight when the file disappears) — several repetitions, the schedule is not controlled
